@@ -22,6 +22,10 @@ type Case struct {
 	N      int    `json:"n"`
 	Mod    int    `json:"mod"` // list element i is i%Mod when Mod>0 (repeated elements), else 1000+i
 	Note   string `json:"note,omitempty"`
+	// per-index mode (list sizes that cannot be materialised, up to the spec's 2^40): N is ignored,
+	// HugeN is the index count and Idx the positions probed
+	HugeN uint64   `json:"huge_n,omitempty"`
+	Idx   []uint64 `json:"idx,omitempty"`
 }
 
 // spec: compute_shuffled_index(index, index_count, seed) with SHUFFLE_ROUND_COUNT = rounds
@@ -47,6 +51,39 @@ func specShuffledIndex(index, n uint64, seed [32]byte, rounds int) uint64 {
 	return index
 }
 
+// runHuge checks the per-index functions on index ranges too large to build a list of: the spec's
+// compute_shuffled_index is defined for index_count up to 2^40 (position // 256 must fit uint32).
+func runHuge(c *Case, seed [32]byte) *report.Failure {
+	n, rounds := c.HugeN, uint8(c.Rounds)
+	for _, i := range c.Idx {
+		i %= n
+		want := specShuffledIndex(i, n, seed, c.Rounds)
+		got := uint64(common.PermuteIndex(rounds, common.ValidatorIndex(i), n, seed))
+		if got != want {
+			return report.Failf("PermuteIndex/wrong", "PermuteIndex(rounds=%d,i=%d,n=%d) = %d, spec says %d", rounds, i, n, got, want)
+		}
+		if back := uint64(common.UnpermuteIndex(rounds, common.ValidatorIndex(got), n, seed)); back != i {
+			return report.Failf("UnpermuteIndex/not-inverse", "Unpermute(Permute(%d)) = %d (n=%d rounds=%d)", i, back, n, rounds)
+		}
+		u := uint64(common.UnpermuteIndex(rounds, common.ValidatorIndex(i), n, seed))
+		if u >= n {
+			return report.Failf("UnpermuteIndex/out-of-range", "Unpermute(%d) = %d out of range n=%d", i, u, n)
+		}
+		if specShuffledIndex(u, n, seed, c.Rounds) != i {
+			return report.Failf("UnpermuteIndex/wrong", "UnpermuteIndex(rounds=%d,i=%d,n=%d) = %d, but spec(%d) != %d", rounds, i, n, u, u, i)
+		}
+	}
+	return nil
+}
+
+func bitsLen(x uint64) int {
+	n := 0
+	for ; x > 0; x >>= 1 {
+		n++
+	}
+	return n
+}
+
 func specPivot(seed [32]byte, round int, n uint64) uint64 {
 	ph := sha256.Sum256(append(append([]byte{}, seed[:]...), byte(round)))
 	return binary.LittleEndian.Uint64(ph[:8]) % n
@@ -61,6 +98,9 @@ func run(c *Case) (f *report.Failure) {
 	var seed [32]byte
 	b, _ := hex.DecodeString(c.Seed)
 	copy(seed[:], b)
+	if c.HugeN > 0 {
+		return runHuge(c, seed)
+	}
 	n := uint64(c.N)
 	rounds := uint8(c.Rounds)
 	perm := make([]uint64, n)
@@ -180,7 +220,7 @@ func seedWithPivot(base [32]byte, n uint64, want uint64) ([32]byte, bool) {
 func TestCheck(t *testing.T) {
 	r := report.Begin("C06")
 	defer r.Finish()
-	r.Rule("(seed, rounds, n) triples: an enumerated block (every n in a contiguous range, fixed seeds, several round counts; every rounds value 0..255 at a few sizes) plus rapid-drawn triples incl. seeds searched so that the round-0 pivot is 0, 1 or n-1, sizes straddling multiples of 256 and 8, lists with repeated elements; each case checks every index of the list. non-trivial = n>=2 and rounds>=1; distinct key = (n, rounds, seed)")
+	r.Rule("(seed, rounds, n) triples: an enumerated block (every n in a contiguous range, fixed seeds, several round counts; every rounds value 0..255 at a few sizes) plus rapid-drawn triples incl. seeds searched so that the round-0 pivot is 0, 1 or n-1, sizes straddling multiples of 256 and 8, lists with repeated elements; each case checks every index of the list; plus per-index cases on index ranges of 2^16..2^40 (the largest the spec function is defined for) probing both ends, positions around 2^32 and 24 random positions each. non-trivial = n>=2 and rounds>=1; distinct key = (n, rounds, seed)")
 	r.Assume("the reference is compute_shuffled_index transcribed from the phase0 spec with crypto/sha256; its bijectivity is asserted on every case", "UnshuffleList(L)[i] == L[spec(i)] is the relation compute_committee relies on; ShuffleList is its whole-list inverse")
 	replay := func(raw json.RawMessage) *report.Failure {
 		var c Case
@@ -278,6 +318,42 @@ func TestCheck(t *testing.T) {
 		}
 	}
 	if fail {
+		return
+	}
+	// ---- per-index functions on huge index ranges (2^16 .. 2^40), probing both ends, 2^32 and random positions
+	if !r.Search(t, "huge-index-range", 1, r.N(400, 6000), func(rt *rapid.T) (any, *report.Failure) {
+		c := &Case{Note: "huge"}
+		switch rapid.IntRange(0, 4).Draw(rt, "nk") {
+		case 0:
+			c.HugeN = 1<<32 + uint64(rapid.IntRange(-300, 300).Draw(rt, "d32"))
+		case 1:
+			c.HugeN = 1<<40 - uint64(rapid.IntRange(0, 1000).Draw(rt, "d40"))
+		case 2:
+			c.HugeN = rapid.Uint64Range(1<<32, 1<<40).Draw(rt, "n")
+		case 3:
+			c.HugeN = rapid.Uint64Range(1<<16, 1<<32).Draw(rt, "n")
+		default:
+			c.HugeN = uint64(1) << uint(rapid.IntRange(17, 40).Draw(rt, "log2n"))
+		}
+		c.Rounds = rapid.SampledFrom([]int{1, 2, 3, 10, 90, 255}).Draw(rt, "rounds")
+		var seed [32]byte
+		copy(seed[:], rapid.SliceOfN(rapid.Byte(), 32, 32).Draw(rt, "seed"))
+		c.Seed = hex.EncodeToString(seed[:])
+		n := c.HugeN
+		c.Idx = []uint64{0, 1, n - 1, n - 2, n / 2, (1 << 32) % n, (1<<32 - 1) % n, (1<<32 + 255) % n}
+		for k := 0; k < 24; k++ {
+			c.Idx = append(c.Idx, rapid.Uint64Range(0, n-1).Draw(rt, "i"))
+		}
+		r.Eval(1)
+		cl := "huge:n<2^32"
+		if n > 1<<32 {
+			cl = "huge:n>2^32"
+		}
+		r.Class(cl)
+		r.NonTrivial(fmt.Sprintf("huge|%d|%d", bitsLen(n), c.Rounds))
+		r.Sample(cl, func() any { return c })
+		return c, run(c)
+	}) {
 		return
 	}
 	// ---- random block
